@@ -14,3 +14,92 @@ func verifHarness_C04_sysSchedules() {
 	r.assertC04()
 	vReach()
 }
+
+// C04 P-unit (W2): what the broker receives decodes to exactly what was submitted, for every
+// version generation and every nil / empty / non-empty key, value and header combination.
+func verifHarness_C04_wireContent() {
+	conf := NewConfig()
+	switch vChoose("version", 4) {
+	case 0:
+		conf.Version = V0_8_2_0
+	case 1:
+		conf.Version = V0_10_0_0
+	case 2:
+		conf.Version = V0_11_0_0
+	case 3:
+		conf.Version = V2_1_0_0
+		conf.Producer.Compression = CompressionZSTD
+	}
+	if vChoose("compressed", 2) == 1 && conf.Producer.Compression == CompressionNone {
+		conf.Producer.Compression = CompressionGZIP
+	}
+	p := &asyncProducer{conf: conf, txnmgr: &transactionManager{producerID: noProducerID, producerEpoch: noProducerEpoch}}
+	ps := newProduceSet(p)
+	n := 1 + vChoose("messages", 2)
+	type sub struct {
+		key, val   []byte
+		keyNil     bool
+		valNil     bool
+		hdr        bool
+	}
+	var subs []sub
+	mkPayload := func(name string) (Encoder, []byte, bool) {
+		switch vChoose(name, 3) {
+		case 0:
+			return nil, nil, true
+		case 1:
+			return ByteEncoder([]byte{}), []byte{}, false
+		}
+		b := vBytes(name, 1)
+		return ByteEncoder(b), b, false
+	}
+	for i := 0; i < n; i++ {
+		k, kb, kn := mkPayload("key")
+		v, vb, vn := mkPayload("value")
+		m := &ProducerMessage{Topic: "t", Partition: 0, Key: k, Value: v}
+		s := sub{key: kb, val: vb, keyNil: kn, valNil: vn}
+		if conf.Version.IsAtLeast(V0_11_0_0) && i == 0 && vChoose("headers", 2) == 1 {
+			m.Headers = []RecordHeader{{Key: []byte("h"), Value: vBytes("hval", 1)}}
+			s.hdr = true
+		}
+		vAssert(ps.add(m) == nil, "add")
+		subs = append(subs, s)
+	}
+	req := ps.buildRequest()
+	raw, err := encode(req, nil)
+	vAssert(err == nil, "request-encodes")
+	var back ProduceRequest
+	err = versionedDecode(raw, &back, req.Version)
+	vAssert(err == nil, "request-decodes")
+	if err != nil {
+		return
+	}
+	recs := back.records["t"][0]
+	var keys, vals [][]byte
+	var nHdr []int
+	if recs.RecordBatch != nil {
+		for i, r := range recs.RecordBatch.Records {
+			keys, vals = append(keys, r.Key), append(vals, r.Value)
+			nHdr = append(nHdr, len(r.Headers))
+			vAssert(r.OffsetDelta == int64(i), "offset-deltas-are-indices")
+		}
+		vAssert(int(recs.RecordBatch.LastOffsetDelta) == n-1, "last-offset-delta")
+	} else {
+		vAssert(recs.MsgSet != nil, "legacy-message-set-present")
+		for _, mb := range recs.MsgSet.Messages {
+			for _, inner := range mb.Messages() {
+				keys, vals = append(keys, inner.Msg.Key), append(vals, inner.Msg.Value)
+				nHdr = append(nHdr, 0)
+			}
+		}
+	}
+	vAssert(len(keys) == n, "record-count-equals-message-count")
+	for i := 0; i < n && i < len(keys); i++ {
+		vAssert((keys[i] == nil) == subs[i].keyNil && (vals[i] == nil) == subs[i].valNil, "null-vs-empty-preserved")
+		vAssert(string(keys[i]) == string(subs[i].key) && string(vals[i]) == string(subs[i].val), "payload-bytes-preserved")
+		if subs[i].hdr {
+			vAssert(nHdr[i] == 1, "headers-preserved")
+		}
+	}
+	vReach()
+}
